@@ -263,7 +263,15 @@ class Mon(Base):
 class Paus(Det):
     """a detector that is also Pausable"""
 
+    def __init__(self, name, rec, noreplay=False, **kw):
+        super().__init__(name, rec, **kw)
+        self.noreplay = noreplay          # pause() raises NoReplayAllowed: the engine must forget its rewind cache
+
     def pause(self):
+        if self.noreplay:
+            from bluesky.utils import NoReplayAllowed
+            self._log("pause", "noreplay")
+            raise NoReplayAllowed(f"{self.name} cannot be replayed")
         self._log("pause")
 
     def resume(self):
@@ -273,12 +281,25 @@ class Paus(Det):
 class Flyer(Base):
     """Flyable + EventCollectable"""
 
-    def __init__(self, name, rec, nevents=2, **kw):
+    def __init__(self, name, rec, nevents=2, flat=False, **kw):
         super().__init__(name, rec, **kw)
         self.nevents = nevents
+        self.flat = flat          # describe_collect returns {key: datakey} (for a pre-declared collect stream), not {stream: {...}}
 
     def prepare(self, value):
         return self._status("prepare")
+
+    # Configurable (Msg('configure', flyer, ...) describes its streams again)
+    def configure(self, *args, **kwargs):
+        self._log("configure")
+        old, self.cfg = getattr(self, "cfg", 1), getattr(self, "cfg", 1) + 1
+        return ({self.name + "_cfg": old}, {self.name + "_cfg": self.cfg})
+
+    def read_configuration(self):
+        return {self.name + "_cfg": {"value": getattr(self, "cfg", 1), "timestamp": 0.0}}
+
+    def describe_configuration(self):
+        return {self.name + "_cfg": {"source": "fake", "dtype": "integer", "shape": []}}
 
     def kickoff(self):
         return self._status("kickoff")
@@ -287,7 +308,8 @@ class Flyer(Base):
         return self._status("complete")
 
     def describe_collect(self):
-        return {self.name + "_stream": {self.name + "_x": {"source": "fake", "dtype": "number", "shape": []}}}
+        dk = {self.name + "_x": {"source": "fake", "dtype": "number", "shape": []}}
+        return dk if self.flat else {self.name + "_stream": dk}
 
     def collect(self):
         if self._fault("collect") == "raise":
